@@ -55,6 +55,13 @@ impl Scenario for AggSc {
             p.set("n", sizes[(index / 2) as usize % sizes.len()] as i64);
             p.set("scheme", [2i64, 0, 1][(index / 2 / sizes.len() as u64) as usize % 3]);
         }
+        if class == "agg-very-long" {
+            // beyond every block size a memory-bounded implementation would plausibly pick (64 MiB of prepared terms is
+            // ~3400): 2^k + 1 entries
+            let sizes: &[i64] = if tier == Tier::Thorough { &[2049, 4097, 8193, 16385] } else { &[4097] };
+            p.set("n", sizes[(index / 2) as usize % sizes.len()]);
+            p.set("scheme", [2i64, 0, 1][(index / 2 / sizes.len() as u64) as usize % 3]);
+        }
         if class == "mixed-blocks" {
             p.set("scheme", (index / 2 % 2) as i64 * 2);
             p.set("kind", (index / 4 % 2) as i64); // 0 aggregate, 1 multi-signature
@@ -78,7 +85,7 @@ impl Scenario for AggSc {
         p
     }
     fn run(&self, plan: &Plan, env: &Env, rec: &mut Rec) {
-        if plan.class == "agg-block-sizes" {
+        if plan.class == "agg-block-sizes" || plan.class == "agg-very-long" {
             return run_block_sizes(plan, env.cur, rec);
         }
         if plan.class == "mixed-blocks" {
@@ -561,7 +568,7 @@ pub fn block_sizes() -> Vec<usize> {
 fn run_block_sizes(plan: &Plan, lib: &dyn Lib, rec: &mut Rec) {
     let g = grp_of(plan.get("g"));
     let scheme = plan.get("scheme") as u8;
-    let n = plan.get("n").clamp(2, 1100) as usize;
+    let n = plan.get("n").clamp(2, 17000) as usize;
     // four keys take turns; every message is distinct
     let keys: Vec<(Vec<u8>, Vec<u8>)> = (0..4u64).filter_map(|i| { let sk = key_of_class(rec, lib, g, 4 + i % 2, plan.seed.wrapping_add(i)); rec.call(lib, g, Op::PublicKey, &[&sk]).first().map(|pk| (sk, pk.to_vec())) }).collect();
     if keys.len() != 4 {
@@ -584,6 +591,15 @@ fn run_block_sizes(plan: &Plan, lib: &dyn Lib, rec: &mut Rec) {
     rec.case(&[6, g as u64, scheme as u64, n as u64, 500], true);
     let out = agg_verify(rec, lib, g, &agg, &list);
     rec.expect("C06", "honest-aggregate-verifies", out.is_ok(), || format!("exact-list n={} scheme={} g={} | an honest aggregate of {} signatures over distinct messages is rejected: {:?}", n, scheme_name(scheme), g.name(), n, out));
+    if n > 1100 {
+        // very long lists: the exact list and one altered message only (a pairing term costs milliseconds on the pure-Rust back end)
+        let mut l2 = list.clone();
+        l2[n - 2].1.push(b'!');
+        let out = agg_verify(rec, lib, g, &agg, &l2);
+        rec.expect("C06", "altered-list-rejected", !out.is_ok(), || format!("message-altered-at-{} n={} scheme={} g={} | the aggregate verifies against a list with one message altered", n - 2, n, scheme_name(scheme), g.name()));
+        rec.sample(|| format!("very long list n={} scheme={} g={}", n, scheme_name(scheme), g.name()));
+        return;
+    }
     let rev: Vec<(Vec<u8>, Vec<u8>)> = list.iter().rev().cloned().collect();
     let out = agg_verify(rec, lib, g, &agg, &rev);
     rec.expect("C06", "honest-aggregate-verifies", out.is_ok(), || format!("reversed-list n={} scheme={} g={} | rejected: {:?}", n, scheme_name(scheme), g.name(), out));
@@ -642,6 +658,18 @@ fn run_mixed_blocks(plan: &Plan, lib: &dyn Lib, rec: &mut Rec) {
         }
         v
     };
+    // every list size from 2 to 400 of one scheme: accumulated / aggregated without refusal (the refusals above are about
+    // mixed schemes, not about sizes; a list processed in lanes or blocks must not stumble over a short last lane)
+    {
+        let mut refused: Vec<usize> = vec![];
+        for nn in 2..=400usize {
+            let args = build(&[(nn, false)]);
+            if !rec.call(lib, g, op, &args).is_ok() {
+                refused.push(nn);
+            }
+        }
+        rec.expect(prop, "same-scheme-list-accepted", refused.is_empty(), || format!("every-size-2-to-400 g={} scheme={} | lists of these sizes were refused: {:?}", g.name(), scheme_name(scheme), refused));
+    }
     for a in lens.iter().copied() {
         let b = lens[x.below(lens.len() as u64) as usize];
         for (what, runs) in [("A^a B^a", vec![(a, false), (a, true)]), ("A^a B^b", vec![(a, false), (b, true)]), ("A^a B^a A^a", vec![(a, false), (a, true), (a, false)]), ("B^a A^a", vec![(a, true), (a, false)])] {
